@@ -22,6 +22,16 @@ class Format(str, Enum):
     none = "none"
 
 
+INT64_MAX = 2**63 - 1
+
+
+def _is_integer_arithmetic(expr: sympy.Expr) -> bool:
+    """Integer literals and (unevaluated) sums and products of them"""
+    return expr.is_Integer or (
+        (expr.is_Add or expr.is_Mul) and all(_is_integer_arithmetic(arg) for arg in expr.args)
+    )
+
+
 # class GotranPythonCodePrinter(NumPyPrinter):
 class GotranPythonCodePrinter(PythonCodePrinter):
     _kf = {
@@ -40,6 +50,24 @@ class GotranPythonCodePrinter(PythonCodePrinter):
             # do occur (e.g. numpy.where(cond, 1, 0)). Use a floating point exponent.
             expr = sympy.Pow(expr.base, exp.evalf(), evaluate=False)
         return super()._print_Pow(expr, rational=rational)
+
+    def _print_Integer(self, expr):
+        # jax refuses python integers that do not fit in an int64
+        if abs(expr.p) > INT64_MAX:
+            return self._print(sympy.Float(expr, 17))
+        return super()._print_Integer(expr)
+
+    def _print_Add(self, expr, **kwargs):
+        if _is_integer_arithmetic(expr) and abs(expr.doit()) > INT64_MAX:
+            return self._print(sympy.Float(expr.doit(), 17))
+        return super()._print_Add(expr, **kwargs)
+
+    def _print_Mul(self, expr, **kwargs):
+        # A product of integer literals is kept as it is written and python evaluates it
+        # to an integer, which may not fit in an int64 either
+        if _is_integer_arithmetic(expr) and abs(expr.doit()) > INT64_MAX:
+            return self._print(sympy.Float(expr.doit(), 17))
+        return super()._print_Mul(expr, **kwargs)
 
     def _print_MatrixElement(self, expr):
         if expr.parent.shape[1] == 1:
